@@ -147,7 +147,7 @@ class DirStateWorkingTree(InventoryWorkingTree):
                     # the dirstate only notices a missing parent when no row at
                     # all exists for it; a parent that is still in the basis
                     # tree but no longer in the working tree would be accepted
-                    raise errors.NotVersionedError(dirname, self)
+                    raise NotVersionedError(path=dirname)
                 norm_name, can_access = osutils.normalized_filename(basename)
                 if norm_name != basename:
                     if can_access:
